@@ -881,6 +881,27 @@ func (c *inlCtx) tryStmtDirect(st ast.Stmt) {
 			return
 		}
 		cond := ast.Unparen(t.Cond)
+		// `if a && f(x) { S }` (no else): the same as `if a { if f(x) { S } }`, where the call is a whole condition
+		if b, ok := cond.(*ast.BinaryExpr); ok && b.Op == token.LAND && t.Else == nil {
+			inlinable := func(e ast.Expr) bool {
+				e = ast.Unparen(e)
+				if u, isU := e.(*ast.UnaryExpr); isU && u.Op == token.NOT {
+					e = ast.Unparen(u.X)
+				}
+				call, isC := e.(*ast.CallExpr)
+				if !isC {
+					return false
+				}
+				_, _, _, _, _, _, okC := c.calleeOf(call)
+				c.pendingClosure = nil
+				return okC
+			}
+			if inlinable(b.X) || inlinable(b.Y) {
+				text := "if " + c.text(b.X) + " {\nif " + c.text(b.Y) + " " + c.text(t.Body) + "\n}"
+				c.edits = append(c.edits, inlineEdit{start: c.tf.Offset(t.Pos()), end: c.tf.Offset(t.End()), text: text})
+				return
+			}
+		}
 		neg := false
 		if u, ok := cond.(*ast.UnaryExpr); ok && u.Op == token.NOT {
 			neg = true
